@@ -8,7 +8,7 @@ import json, os, shutil, subprocess, sys, time
 
 prop, src = sys.argv[1], sys.argv[2].rstrip('/')
 extra = sys.argv[3:]
-name = '%s-%s' % (prop, os.path.basename(src))
+name = '%s-%s%s' % (prop, 'r2' if '/mut2/' in src else '', os.path.basename(src))
 wt = '/tmp/evalwt-%s' % name
 patch = os.path.join(src, 'patch.diff')
 
